@@ -433,6 +433,17 @@ func (m *Manager) lock() {
 				acctInfo.acctKeyPriv.Zero()
 			}
 			acctInfo.acctKeyPriv = nil
+
+			// The cached last addresses of a branch are not
+			// necessarily part of the address cache below.
+			for _, ma := range []ManagedAddress{
+				acctInfo.lastExternalAddr,
+				acctInfo.lastInternalAddr,
+			} {
+				if addr, ok := ma.(*managedAddress); ok {
+					addr.lock()
+				}
+			}
 		}
 	}
 
